@@ -70,6 +70,27 @@ UNARY_CALLS = {"sqrt": "sqrt", "cos": "cos", "sin": "sin", "tan": "tan", "arccos
                "arctan": "atan", "abs": "abs", "absolute": "abs"}
 
 
+class _NoneType:
+    """Python's None as an interpreter value (only identity tests are supported on it)"""
+    def __repr__(self):
+        return "NONE"
+
+
+NONE = _NoneType()
+
+
+class Shape(list):
+    """the .shape of a symbolic array (a tuple of ints); `+` concatenates"""
+
+
+def shape_of(v):
+    s = []
+    while isinstance(v, list):
+        s.append(len(v))
+        v = v[0] if v else None
+    return Shape(s)
+
+
 class Interp:
     def __init__(self, module_funcs, constants, graph=None):
         self.funcs = module_funcs  # name -> ast.FunctionDef (for inlining)
@@ -110,6 +131,8 @@ class Interp:
         raise Unsupported(f"expected scalar, got {type(v).__name__}")
 
     def bin(self, op, a, b):
+        if op == "add" and (isinstance(a, Shape) or isinstance(b, Shape)) and isinstance(a, list) and isinstance(b, list):
+            return Shape(list(a) + list(b))  # tuple concatenation of array shapes
         if isinstance(a, list) or isinstance(b, list):
             if isinstance(a, list) and isinstance(b, list):
                 if len(a) != len(b):
@@ -214,6 +237,15 @@ class Interp:
             return self.dotted(node.value) + "." + node.attr
         raise Unsupported("not a dotted name")
 
+    def strip_ellipsis(self, elts, base):
+        """`x[..., i]` on an array whose leading (batch) axes are absent in the symbolic run: drop the Ellipsis"""
+        out = [e for e in elts if not (isinstance(e, ast.Constant) and e.value is Ellipsis)]
+        if len(out) != len(elts):
+            depth = len(shape_of(base))
+            if len(out) > depth:
+                raise Unsupported("ellipsis index deeper than the array")
+        return out
+
     def index_of(self, node, env):
         """constant index / slice -> python int or slice"""
         if isinstance(node, ast.Slice):
@@ -234,11 +266,16 @@ class Interp:
         if isinstance(node, ast.Constant):
             if isinstance(node.value, (int, float)) and not isinstance(node.value, bool):
                 return node.value
+            if node.value is None:
+                return NONE
             raise Unsupported(f"constant {node.value!r}")
         if isinstance(node, ast.Name):
             if node.id in env:
                 return env[node.id]
             raise Unsupported(f"unknown name {node.id}")
+        if isinstance(node, ast.Attribute) and node.attr == "shape" and isinstance(node.value, ast.Name) \
+                and isinstance(env.get(node.value.id), list):
+            return shape_of(env[node.value.id])
         if isinstance(node, ast.Attribute):
             name = self.dotted(node)
             if name in ("np.pi", "numpy.pi", "math.pi"):
@@ -283,6 +320,11 @@ class Interp:
                     c = self.cor(c, self.cmp("beq", a, self.eval(e, env)))
                 return self.cnot(c) if isinstance(op, ast.NotIn) else c
             b = self.eval(node.comparators[0], env)
+            if isinstance(op, (ast.Is, ast.IsNot)):
+                if a is NONE or b is NONE:
+                    same = a is b
+                    return same if isinstance(op, ast.Is) else not same
+                raise Unsupported("identity comparison")
             if isinstance(op, ast.Lt):
                 return self.cmp("lt", a, b)
             if isinstance(op, ast.LtE):
@@ -297,10 +339,13 @@ class Interp:
                 return self.cnot(self.cmp("beq", a, b))
             raise Unsupported("comparison op")
         if isinstance(node, ast.BoolOp):
-            vals = [self.eval(v, env) for v in node.values]
-            acc = vals[0]
-            for v in vals[1:]:
-                acc = self.cand(acc, v) if isinstance(node.op, ast.And) else self.cor(acc, v)
+            is_and = isinstance(node.op, ast.And)
+            acc = self.eval(node.values[0], env)
+            for vn in node.values[1:]:
+                if isinstance(acc, bool) and acc == (not is_and):
+                    return acc  # short-circuit, as Python does
+                v = self.eval(vn, env)
+                acc = self.cand(acc, v) if is_and else self.cor(acc, v)
             return acc
         if isinstance(node, (ast.List, ast.Tuple)):
             return [self.eval(e, env) for e in node.elts]
@@ -311,12 +356,14 @@ class Interp:
             sl = node.slice
             if isinstance(sl, ast.Tuple):
                 v = base
-                for e in sl.elts:
+                for e in self.strip_ellipsis(sl.elts, base):
                     v = v[self.index_of(e, env)]
-                return v
+                return (type(v)(v) if isinstance(v, Shape) else list(v)) if isinstance(v, list) else v
             idx = self.index_of(sl, env)
             v = base[idx]
-            return list(v) if isinstance(idx, slice) else v
+            if isinstance(idx, slice):
+                return Shape(v) if isinstance(base, Shape) else list(v)
+            return v
         if isinstance(node, ast.Call):
             return self.call(node, env)
         if isinstance(node, ast.IfExp):
@@ -353,13 +400,27 @@ class Interp:
                 for x in v[1:]:
                     acc = self.ite(self.cmp("lt", acc, x), x, acc)
                 return acc
-            if short == "array":
+            if short in ("array", "asarray"):
                 return self.eval(args[0], env)
+            if short == "zeros_like":
+                v = self.eval(args[0], env)
+                z = lambda x: [z(y) for y in x] if isinstance(x, list) else 0
+                return z(v)
+            if short == "divide" and len(args) == 2:
+                kw = {k.arg: k.value for k in node.keywords}
+                if set(kw) - {"where", "out"}:
+                    raise Unsupported("np.divide keywords")
+                q = self.bin("div", self.eval(args[0], env), self.eval(args[1], env))
+                if "where" in kw:
+                    if "out" not in kw:
+                        raise Unsupported("np.divide(where=) without out=")
+                    return self.ite(self.eval(kw["where"], env), q, self.eval(kw["out"], env))
+                return q
             if short == "zeros":
                 shp = self.eval(args[0], env)
                 if isinstance(shp, int):
                     return [0] * shp
-                if isinstance(shp, list) and all(isinstance(s, int) for s in shp):
+                if isinstance(shp, list) and shp and all(isinstance(s, int) for s in shp):
                     def z(s):
                         return [0] * s[0] if len(s) == 1 else [z(s[1:]) for _ in range(s[0])]
                     return z(shp)
@@ -389,6 +450,14 @@ class Interp:
                     raise Unsupported("roll")
                 k %= len(a)
                 return a[-k:] + a[:-k] if k else list(a)
+            if short == "where" and len(args) == 3:
+                c = self.eval(args[0], env)
+                return self.ite(c, self.eval(args[1], env), self.eval(args[2], env))
+            if short == "isnan":
+                v = self.eval(args[0], env)
+                if isinstance(v, list):
+                    return [self.cnot(self.cmp("beq", x, x)) for x in v]
+                return self.cnot(self.cmp("beq", v, v))
             if short == "einsum":
                 # da.einsum("...ab,cd...->abcd", X, Y): outer product; per element X*Y
                 return self.bin("mul", self.eval(args[1], env), self.eval(args[2], env))
@@ -415,6 +484,13 @@ class Interp:
         if isinstance(target, ast.Subscript) and isinstance(target.value, ast.Name):
             name = target.value.id
             arr = env.get(name)
+            if isinstance(arr, (Sc, int, float)) and not isinstance(arr, bool):
+                # numpy-vectorised scalar code: x[mask] = value on a (broadcast) scalar
+                mask = self.eval(target.slice, env)
+                if isinstance(mask, (Cond, bool)):
+                    env[name] = self.ite(mask, value, arr)
+                    return
+                raise Unsupported("masked assign with non-condition mask")
             if not isinstance(arr, list):
                 raise Unsupported("subscript assign to non-array")
             sl = target.slice
@@ -425,6 +501,11 @@ class Interp:
                     raise Unsupported("mask assign")
                 env[name] = [self.ite(m, value, old) for m, old in zip(mask, arr)]
                 return
+            if isinstance(sl, ast.Tuple) and any(isinstance(e, ast.Constant) and e.value is Ellipsis for e in sl.elts):
+                elts = self.strip_ellipsis(sl.elts, arr)
+                if len(elts) != 1:
+                    raise Unsupported("ellipsis index assign")
+                sl = elts[0]
             if isinstance(sl, ast.Tuple):
                 idxs = [self.index_of(e, env) for e in sl.elts]
                 if len(idxs) != 2 or not all(isinstance(i, int) for i in idxs):
@@ -546,6 +627,8 @@ class Interp:
 
     def run_function(self, f: ast.FunctionDef, vals, out_param=None):
         params = [a.arg for a in f.args.args]
+        if len(vals) < len(params) and len(params) - len(vals) <= len(f.args.defaults):
+            vals = list(vals) + [self.eval(d, {}) for d in f.args.defaults[len(f.args.defaults) - (len(params) - len(vals)):]]
         if len(vals) != len(params):
             raise Unsupported("arity")
         env = dict(zip(params, vals))
